@@ -26,18 +26,26 @@ def _fold_inv(I, fr, k):
     st = I.st
     FOLD, P, R, Wl = g['FOLD'], g['P'], g['R'], g['Wl']
     phase = getattr(I, 'inv_phase', None)
+    if phase == 'init':
+        # the accumulator is THE loop-carried local, whatever it is called
+        if len(I.loop_carried) != 1:
+            from pyvc.engine import Unsupported
+            raise Unsupported('_finalize: the branch loop carries %r, the contract expects one accumulator '
+                              '(function shape changed; contract needs re-anchoring)' % (I.loop_carried,))
+        g['acc'] = I.loop_carried[0]
+    acc = g['acc']
     if phase in ('assume', 'exit'):
         st.assume(FOLD(z3.IntVal(0)) == g['D0'])
         kk = z3.simplify(k)
         if phase == 'assume':
             st.assume(FOLD(kk + 1) == z3.If(P(kk) != 0, R(kk), FOLD(kk)))
         if st.branch(kk == 0):
-            fr.env['result'] = g['init_result']
+            fr.env[acc] = g['init_result']
         else:
-            fr.env['result'] = W.new_wire(I, Wl, FOLD(kk), hint='fold')
+            fr.env[acc] = W.new_wire(I, Wl, FOLD(kk), hint='fold')
             st.assume(z3.And(FOLD(kk) >= 0, FOLD(kk) < H.pow2(Wl)))
         return []
-    res = fr.env.get('result')
+    res = fr.env.get(acc)
     if phase == 'init':
         # the value the fold starts from is the documented default
         if isinstance(res, SObj):
@@ -63,7 +71,22 @@ def _mem_inv(I, fr, k):
     g = I._fin_ghost
     st = I.st
     phase = getattr(I, 'inv_phase', None)
-    names = (('combined_enable', 'FE', 'E', 1), ('combined_addr', 'FA', 'A', g['AW']), ('combined_data', 'FD', 'D', g['DW']))
+    if phase == 'init':
+        # the three loop-carried locals are identified by what they hold after the first write (the
+        # first element's address wire, its data wire, and the remaining one is the enable), not by name
+        from pyvc.engine import Unsupported
+        a0, d0 = g['elem0'][1][0], g['elem0'][1][1]
+        roles = {}
+        for nm in I.loop_carried:
+            v = fr.env.get(nm)
+            roles['A' if v is a0 else 'D' if v is d0 else 'E' if 'E' not in roles else '?'] = nm
+        if len(I.loop_carried) != 3 or set(roles) != {'A', 'D', 'E'}:
+            raise Unsupported('_finalize: the memory loop carries %r, the contract expects address/data/enable '
+                              'accumulators (function shape changed; contract needs re-anchoring)' % (I.loop_carried,))
+        g['roles'] = roles
+    roles = g['roles']
+    names = ((roles['E'], 'FE', 'E', 1), (roles['A'], 'FA', 'A', g['AW']), (roles['D'], 'FD', 'D', g['DW']))
+    label = {roles['E']: 'combined_enable', roles['A']: 'combined_addr', roles['D']: 'combined_data'}
     kk = z3.simplify(k)       # k iterations of the [1:] loop done  <=>  k+1 list elements folded
     if phase in ('assume', 'exit'):
         if phase == 'assume':
@@ -86,16 +109,16 @@ def _mem_inv(I, fr, k):
             v = fr.env.get(var)
             if not isinstance(v, SObj) or v.fields.get('_den') is None:
                 return [('first conditional write builds driven wires', z3.BoolVal(False))]
-            out.append(('%s after the first write == fold(1)' % var, W.den_of(v) == g[F](z3.IntVal(1))))
-            out.append(('%s width' % var, W.bw_of(v) == w))
+            out.append(('%s after the first write == fold(1)' % label[var], W.den_of(v) == g[F](z3.IntVal(1))))
+            out.append(('%s width' % label[var], W.bw_of(v) == w))
         return out
     out = []
     for var, F, X, w in names:
         v = fr.env.get(var)
         if not isinstance(v, SObj) or v.fields.get('_den') is None:
             return [('combined wires are driven', z3.BoolVal(False))]
-        out.append(('%s == fold(k+2)' % var, W.den_of(v) == g[F](kk + 1)))
-        out.append(('%s keeps its width' % var, W.bw_of(v) == w))
+        out.append(('%s == fold(k+2)' % label[var], W.den_of(v) == g[F](kk + 1)))
+        out.append(('%s keeps its width' % label[var], W.bw_of(v) == w))
     return out
 
 
@@ -180,6 +203,7 @@ class Finalize(Contract):
                 return cache[key]
             plist = SSeq(N, elem, 'list')
             z = z3.IntVal
+            g['elem0'] = elem(z(0))
             st.assume(g['FE'](z(1)) == z3.If(g['P'](z(0)) != 0, g['E'](z(0)), 0))
             st.assume(g['FA'](z(1)) == g['A'](z(0)))
             st.assume(g['FD'](z(1)) == g['D'](z(0)))
